@@ -241,6 +241,42 @@ pub fn run(tier: Tier) -> ! {
     }
     fams.push(json!({"family": format!("(b) {} unsupported/erroneous and {} supported constructs x every context of depth <= {depth} (15 wrappers per level) x slots (pattern 1/2 of mode 0/1, positive/negative lookahead of each)", bad.len(), good.len()), "cases": cases.len(), "exhaustive": true}));
 
+    // (d) long patterns: literal runs of 1..4-byte characters of every length around typical
+    // buffer / message-abbreviation sizes, with a construct planted at the start, the end or nested
+    {
+        let mut cases: Vec<(String, bool)> = vec![];
+        for ch in ["a", "é", "あ", "😀"] {
+            for pre in 0..70usize {
+                let run: String = format!("{}{}", "a".repeat(pre), ch.repeat(24));
+                for (tmpl, ok) in [("{r}", true), ("^{r}", false), ("{r}$", false), ("{r}\\b", false), ("({r}x*?)+", false), ("{r}(?i)", false), ("({r}|\\p{Foo})", false), ("[{c}\\p{sc=Greek}]{r}", false), ("{r}(", false), ("({r}){2}", true), ("{r}\\pL+", true)] {
+                    cases.push((tmpl.replace("{r}", &run).replace("{c}", ch), ok));
+                }
+            }
+        }
+        for n in [100usize, 255, 256, 257, 1000, 5000] {
+            cases.push(("é".repeat(n), true));
+            cases.push((format!("{}^", "é".repeat(n)), false));
+            cases.push((format!("({})*?", "😀".repeat(n)), false));
+        }
+        let accs = par_for(cases.len(), 64, || Acc { samples: Samples::new(1), ..Default::default() }, |acc, i| {
+            let (p, ok) = &cases[i];
+            let expect = if *ok { classify(p) == Class::Supported } else { false };
+            for slot in [0usize, 3, 4, 7] {
+                judge(acc, &format!("long pattern ({} bytes) {}", p.len(), if expect { "supported" } else { "to be rejected" }), &in_slot(p, slot), expect, false, "long");
+            }
+            // a long mode name next to a rejected pattern
+            if i % 50 == 0 {
+                let mut cfg = in_slot(p, 0);
+                cfg.modes[0].name = "Ä".repeat(40 + i % 30);
+                judge(acc, "long multi-byte mode name", &cfg, expect, false, "long");
+            }
+        });
+        for a in accs {
+            merge(&mut total, a);
+        }
+        fams.push(json!({"family": "(d) long patterns: 0..69 ASCII characters followed by 24 one- to four-byte characters, plain or with an unsupported construct / syntax error planted at the start, at the end or nested; runs of 100..5000 multi-byte characters; slots 0,3,4,7", "patterns": cases.len(), "exhaustive": true}));
+    }
+
     // (c) through the cache: classification independent of the cache, no panic poisons it
     let lc = if tier == Tier::Quick { 3 } else { 4 };
     let mut acc = Acc { samples: Samples::new(1), ..Default::default() };
